@@ -137,19 +137,34 @@ def run_greedy_small(key):
     return ok(outcome=f'{K},{F},{chunk}', evals=n, states=n, transitions=n * (F - 1))
 
 
-def large_fields(K, F, family, perms):
-    """yield lists of permutation indices of length F."""
+def large_cuts(F):
+    return sorted({1, 2, F // 7, F // 3, F // 2, F - F // 3, F - 2, F - 1})
+
+
+def large_parts(F, family):
+    """number of independent parts a family is split into (one case each, for the worker pool)."""
+    if family == 'two_changes':
+        return len(list(itertools.combinations(large_cuts(F), 2))) + 1
+    return 1
+
+
+def large_fields(K, F, family, perms, part=None):
+    """yield lists of permutation indices of length F (part: one pair of cut positions / the single cuts)."""
     P = len(perms)
     if family == 'two_changes':
-        cuts = sorted({1, 2, F // 7, F // 3, F // 2, F - F // 3, F - 2, F - 1})
-        for a, b in itertools.combinations(cuts, 2):
+        cuts = large_cuts(F)
+        pairs = list(itertools.combinations(cuts, 2))
+        for i, (a, b) in enumerate(pairs):
+            if part is not None and part != i:
+                continue
             for p0, p1, p2 in itertools.product(range(P), repeat=3):
                 if P > 2 and (p0 + p1 + p2) % 3:
                     continue
                 yield [p0] * a + [p1] * (b - a) + [p2] * (F - b)
-        for a in cuts:
-            for p0, p1 in itertools.product(range(P), repeat=2):
-                yield [p0] * a + [p1] * (F - a)
+        if part is None or part == len(pairs):
+            for a in cuts:
+                for p0, p1 in itertools.product(range(P), repeat=2):
+                    yield [p0] * a + [p1] * (F - a)
     elif family == 'alternating':
         for p0, p1 in itertools.permutations(range(P), 2):
             yield [p0 if f % 2 == 0 else p1 for f in range(F)]
@@ -170,7 +185,7 @@ def run_greedy_large(key):
     perms = list(itertools.permutations(range(K)))
     base = base_mask(seed, K, F, T)
     n = 0
-    for fld in large_fields(K, F, family, perms):
+    for fld in large_fields(K, F, family, perms, key.get('part')):
         mask, min_ = permute(base, fld, perms)
         al = pa.GreedyPermutationAlignment(similarity_metric=key['metric'])
         m = np.asarray(al.calculate_mapping(mask))
@@ -179,7 +194,7 @@ def run_greedy_large(key):
             bad = np.where((comp != comp[:, :1]).any(0))[0][:8].tolist()
             return viol(f'Greedy({key["metric"]}): order not consistent ({family}, first bad bins {bad})')
         n += 1
-    return ok(outcome=f'{K},{F},{family}', evals=n, states=n, transitions=n * (F - 1))
+    return ok(outcome=f'{K},{F},{family},{key.get("part")}', evals=n, states=n, transitions=n * (F - 1))
 
 
 # ------------------------------------------------------------- DHTV
@@ -462,8 +477,9 @@ def subchecks(tier, seed):
                         if (F > 65 or K == 4) and not thorough and (metric == 'cos' or
                                                                      (K == 4 and family == 'two_changes')):
                             continue
-                        yield (K, F, 16, family, metric, seed)
-    subs.append(Sub('greedy_large_fields', ('K', 'F', 'T', 'family', 'metric', 'seed'), gl_cases,
+                        for part in range(large_parts(F, family)):
+                            yield (K, F, 16, family, metric, part, seed)
+    subs.append(Sub('greedy_large_fields', ('K', 'F', 'T', 'family', 'metric', 'part', 'seed'), gl_cases,
                     run_greedy_large))
 
     def ds_cases():
